@@ -112,7 +112,16 @@ func snapshot(res jsonapi.Resource) map[string]string {
 }
 
 // checkResourceObject: C03/C04 clauses on one resource object of the output tree.
-func checkResourceObject(v *verdicts, n *jnode, res jsonapi.Resource, prepath string, fields []string, relData map[string][]string) {
+// truth, when the generator knows it, is what was written into the resource (for a wrapped
+// struct: what the struct's own fields hold): the related IDs are compared with it rather
+// than with what the resource's getter says.
+func checkResourceObject(v *verdicts, n *jnode, res jsonapi.Resource, prepath string, fields []string, relData map[string][]string, truth map[string]any) {
+	related := func(name string) any {
+		if t, ok := truth[name]; ok {
+			return t
+		}
+		return res.Get(name)
+	}
 	if n == nil || n.kind != 'o' {
 		v.fail("C03,C04", "resource object is not an object")
 		return
@@ -183,7 +192,7 @@ func checkResourceObject(v *verdicts, n *jnode, res jsonapi.Resource, prepath st
 			continue
 		}
 		if rel.ToOne {
-			rid := res.Get(name).(string)
+			rid, _ := related(name).(string)
 			if rid == "" {
 				if data.kind != 'n' {
 					v.fail("C04", "empty to-one is not null")
@@ -194,7 +203,8 @@ func checkResourceObject(v *verdicts, n *jnode, res jsonapi.Resource, prepath st
 				v.fail("C04", "to-one identifier is not the related ID with the target type")
 			}
 		} else {
-			ids := append([]string{}, res.Get(name).([]string)...)
+			held, _ := related(name).([]string)
+			ids := append([]string{}, held...)
 			sort.Strings(ids)
 			if data.kind != 'a' {
 				v.fail("C03,C04", "to-many data is not an array")
@@ -280,7 +290,7 @@ func suiteMarshal(r *Rng, n int, thorough bool, o *Out) {
 			}
 			o.stat("rels.foreign-fromtype")
 		}
-		res, _ := genMarshalRes(r, typ, o)
+		res, truth := genMarshalRes(r, typ, o)
 		var meta map[string]any
 		if r.chance(1, 4) {
 			meta = genMeta(r, 1)
@@ -315,7 +325,7 @@ func suiteMarshal(r *Rng, n int, thorough bool, o *Out) {
 		if tree == nil || strings.HasPrefix(obs, "duplicate") {
 			v.fail("C03", "output is not valid JSON without duplicate keys")
 		} else {
-			checkResourceObject(&v, tree, res, prepath, fields, relData)
+			checkResourceObject(&v, tree, res, prepath, fields, relData, truth)
 		}
 		// C01: unmarshal what was written against a schema holding the type; selected fields
 		// come back with the same value, the others zero (all selected: the whole resource)
